@@ -1162,7 +1162,7 @@ def run(ctx):
                             'time.time and os.urandom are replaced in pyramid.session by a fake clock / fixed bytes while a case runs',
                             'values are JSON-normal (no floats, tuples, non-string keys); excluded points are run and noted'],
             'trusted_base': ['WebOb (cookie parsing, SignedSerializer), Python json/base64/hmac/hashlib: tied by the correspondence run only',
-                             'extract/c10.py (wrapper table, comparison operators and the 4064 limit read from the source)']}
+                             'extract/c10.py (behavioural tables obtained by running the session code of the tree under test over finite probe domains)']}
 
 
 def shrink_mismatch(ctx, m):
